@@ -80,6 +80,8 @@ Layouts ==
     \* the same logical error rates, but a share of the failed trials (growing
     \* with the distance) ended outside the code space
     \cup { [kind |-> "out_of_codespace", a |-> a, b |-> 0, parts |-> 1] : a \in {1, -1} }
+    \* a queued simulation (another distance) with zero trials in the same file
+    \cup { [kind |-> "with_queued_simulation", a |-> a, b |-> 0, parts |-> 1] : a \in {1, -1} }
 
 \* -------------------------------------------------- get_fit_status -------
 \* Entry values are in 1e-6; NaN is a marker.  On the grid used here two
